@@ -90,6 +90,12 @@ def core_prims(idx):
             raise Reject(f"{base} has no attribute {attr}")
         if isinstance(base, dict) and attr in base:
             return base[attr]
+        if type(base).__name__ == "_RecInst":
+            if attr == "__dict__":
+                return vars(base)
+            if not attr.startswith("__") and hasattr(base, attr):
+                return getattr(base, attr)
+            raise Reject(f"record instance has no attribute {attr}")
         raise AnalysisError(f"absint: attribute {attr} of {base!r}")
 
     def setattr_(base, attr, value):
@@ -246,11 +252,14 @@ def rule_record(run):
         run.ob(ok and total == sum(ws), "_make_serializable", file=rec.rel, line=rec.func("_make_serializable").node.lineno, detail=f"widths={ws}",
                expected="consecutive slices starting at bit 0 in declaration order, total = sum", found=f"{ {k: (v.start, v.stop) for k, v in sm.items()} }, total={total}")
         # writer agrees with the slice map
-        inst = {"_cohdlstd_record_annotations": ann}
+        # the instance stores its fields in the REVERSE of the declaration order (a record constructed with keyword
+        # arguments in another order): the layout follows the declaration, never the construction order
+        inst = type("_RecInst", (), {"_cohdlstd_record_annotations": ann, "__module__": __name__})()
         fields = {}
         for i, w in enumerate(ws):
             fields[f"f{i}"] = BV.sym(f"f{i}", w)
-        inst.update(fields)
+        for k in reversed(list(fields)):
+            setattr(inst, k, fields[k])
         pp = dict(p)
         pp["type"] = lambda x: cls
         pp["_make_serializable"] = lambda c: None
@@ -289,9 +298,7 @@ def rule_record(run):
     ok = "assert bits.width == cls._count_bits_()" in t and P.has(
         fb.node, "{__n: from_bits[__t](bits[cls._cohdlstd_slice_map[__n]], qualifier) for __n, __t in cls._cohdlstd_record_annotations.items()}")
     run.ob(ok, "Record._from_bits_", file=rec.rel, line=fb.node.lineno, detail="reader", expected="every field read from its slice of the map with its own type; width checked", found="ok" if ok else "changed")
-    rl = rec.func("_get_reverse_elem_list")
-    ok = "[::-1]" in P.T(rl.node) and "self._cohdlstd_record_annotations.keys()" in P.T(rl.node)
-    run.ob(ok, "_get_reverse_elem_list", file=rec.rel, line=rl.node.lineno, detail="reverse-for-concat", expected="declaration order reversed (concat puts its first argument on top)", found="ok" if ok else "changed")
+    rec.func("_get_reverse_elem_list")   # anchor; its order is decided by the abstract evaluation of Record._to_bits_ above (instance stores the fields in reverse order)
     run.end()
 
 
